@@ -165,6 +165,11 @@ fn nested(kind: usize, depth: usize) -> String {
         4 => format!("SELECT {}x FROM t", "- ".repeat(depth)),
         5 => format!("SELECT {}x FROM t", "NOT ".repeat(depth)),
         6 => format!("SELECT ARRAY{}1{} FROM t", "[ARRAY".repeat(depth - 1) + "[", "]".repeat(depth)),
+        // tuples nested in the first / the last position, calls nested in the first argument, CASE nested in its condition
+        8 => format!("SELECT x FROM t WHERE x IN {}1{}", "(".repeat(depth), ", 2)".repeat(depth)),
+        9 => format!("SELECT x FROM t WHERE x IN {}1, 2{}", "(1, ".repeat(depth), ")".repeat(depth)),
+        10 => format!("SELECT {}1{} FROM t", "greatest(".repeat(depth), ", 2)".repeat(depth)),
+        11 => format!("SELECT {}x{} FROM t", "CASE WHEN ".repeat(depth), " THEN 1 ELSE 2 END".repeat(depth)),
         _ => format!("CREATE TABLE t({{ {} }} => x INT{});", ".a[0]".repeat(depth), "[]".repeat(depth)),
     }
 }
@@ -210,7 +215,21 @@ pub fn child(args: &[String]) -> i32 {
 
 fn run_child(mode: &str, kind: usize, n: usize) -> (String, Option<i32>, String) {
     let exe = std::env::current_exe().unwrap();
-    let out = std::process::Command::new(exe).args(["--child", "parse", mode, &kind.to_string(), &n.to_string()]).output().expect("spawn child");
+    let mut child = std::process::Command::new(exe).args(["--child", "parse", mode, &kind.to_string(), &n.to_string()]).stdout(std::process::Stdio::piped()).stderr(std::process::Stdio::piped()).spawn().expect("spawn child");
+    let start = std::time::Instant::now();
+    loop {
+        match child.try_wait() {
+            Ok(Some(_)) => break,
+            Ok(None) if start.elapsed().as_secs() >= 20 => {
+                let _ = child.kill();
+                let _ = child.wait();
+                return ("no answer within 20 s (killed)".to_string(), Some(-1), "timeout".to_string());
+            }
+            Ok(None) => std::thread::sleep(std::time::Duration::from_millis(5)),
+            Err(_) => break,
+        }
+    }
+    let out = child.wait_with_output().expect("child output");
     let stdout = String::from_utf8_lossy(&out.stdout).to_string();
     let stderr = String::from_utf8_lossy(&out.stderr).to_string();
     let status = if out.status.success() { "ok".to_string() } else if let Some(c) = out.status.code() { format!("exit {}", c) } else { "killed by signal (abort / stack overflow)".to_string() };
@@ -222,7 +241,7 @@ fn child_case(mode: &str, kind: usize, n: usize) -> Vec<Failure> {
     if code == Some(0) {
         return vec![];
     }
-    let what = if first.contains("stack overflow") || code.is_none() { "stack-overflow-abort" } else { "panic" };
+    let what = if code == Some(-1) { "does-not-terminate" } else if first.contains("stack overflow") || code.is_none() { "stack-overflow-abort" } else { "panic" };
     vec![fail(
         format!("parse-child:{}:{}:kind{}:n={}", what, mode, kind, n),
         format!("parsing a {} text (kind {}, size {}) ended with {}: {}", mode, kind, n, status, first),
@@ -381,17 +400,17 @@ pub fn run(ctx: &Ctx) -> i32 {
     col.sample(json!({"layer": "named", "text": "CREATE TABLE x({ } => a INT);"}));
     // (f) nesting up to the documented bound, in child processes with a 2 MiB stack
     let mut n_f = 0;
-    for kind in 0..8 {
-        for depth in [1usize, 2, 8, 32, 64] {
-            for f in child_case("nested", kind, depth) {
-                col.fail(f);
-            }
-            col.eval(1);
-            col.nontrivial(h64(&("nested", kind, depth)));
-            n_f += 1;
+    let nest_cases: Vec<(usize, usize)> = (0..12).flat_map(|kind| [1usize, 2, 8, 32, 64].into_iter().map(move |d| (kind, d))).collect();
+    par_for(nest_cases.len() as u64, |i| {
+        let (kind, depth) = nest_cases[i as usize];
+        for f in child_case("nested", kind, depth) {
+            col.fail(f);
         }
-    }
-    col.layer("f-nesting", n_f, true, json!({"documented_depth_bound": 64, "stack": "2 MiB", "kinds": 8}));
+        col.eval(1);
+        col.nontrivial(h64(&("nested", kind, depth)));
+    });
+    n_f += nest_cases.len();
+    col.layer("f-nesting", n_f as u64, true, json!({"documented_depth_bound": 64, "stack": "2 MiB", "kinds": 12, "time_limit_s": 20}));
     // (g) long flat texts
     let sizes: Vec<usize> = ctx.tier.pick(vec![100, 1000, 10_000, 100_000], vec![100, 1000, 10_000, 100_000, 300_000]);
     let mut n_g = 0;
